@@ -18,7 +18,7 @@
    received by the issuer of its RequestId or by a connection that registered the client id the issuer had announced,
    the census and the session table drain to zero, Close terminates.
 """
-import collections, glob, json, os, re, subprocess, sys, time
+import collections, glob, json, os, re, shutil, subprocess, sys, tempfile, time
 from tools import vlib
 
 MANIFEST = {
@@ -287,11 +287,16 @@ class Runner:
         todo = list(cases)
         while todo:
             text = "\n".join("\n".join(c) for c in todo) + "\n"
+            # scratch dir of the harness process (it chdirs into a temp dir; a process that dies cannot remove it itself)
+            scratch = tempfile.mkdtemp(prefix="c18-run-")
             try:
-                p = subprocess.run([self.impl], input=text.encode(), stdout=subprocess.PIPE, stderr=subprocess.PIPE, timeout=900)
+                p = subprocess.run([self.impl], input=text.encode(), stdout=subprocess.PIPE, stderr=subprocess.PIPE, timeout=900,
+                                   cwd=scratch, env=dict(os.environ, TMPDIR=scratch))
                 out, err, rc = p.stdout.decode("utf-8", "replace"), p.stderr.decode("utf-8", "replace"), p.returncode
             except subprocess.TimeoutExpired as ex:
                 out, err, rc = (ex.stdout or b"").decode("utf-8", "replace"), "timeout", 124
+            finally:
+                shutil.rmtree(scratch, ignore_errors=True)
             po = parse_out(out, complete_only=False)
             if rc == 0:
                 res.update(po)
@@ -504,7 +509,7 @@ def monitor(case, lines):
                     seen_key = set()
                     for w in wills[c]:
                         k, lid = int(w[6]), int(w[5])
-                        if w[2] == "L" and key_mentions[k] == 1:
+                        if w[2] == "L" and key_mentions[k] == 1 and int(w[10]) > 0:      # (Expried 0 = no hold is kept)
                             hit = [h for h in after if h[0] == k and h[1] == lid]
                             if len(hit) != 1:
                                 viol.append(("will-not-executed:%s" % ("text" if kinds[c] == "T" else "binary"),
